@@ -163,6 +163,8 @@ type Exec struct {
 	optBuf   []option
 	lastOpts []option
 
+	sqlTxOwner *thread // holder of the (single-connection) database transaction, see Ext
+
 	key       uint64 // sum of the per-thread terms of the state key
 	expectKey uint64
 	OptKeys   [][]uint64 // per decision: predicted state key after each option
